@@ -245,6 +245,46 @@ func findIIFE(fset *token.FileSet, f *ast.File, src []byte, n int) *srcEdit {
 				return false
 			}
 		}
+		// `if A && <expr with literal> {B}` (no else): `if A { if <expr> {B} }`;
+		// `if [!]literal() {B} [else ...]`: `{ t := literal(); if [!]t {B} [else ...] }`
+		if is, ok := node.(*ast.IfStmt); ok && is.Init == nil {
+			hasLit := func(e ast.Expr) bool {
+				has := false
+				ast.Inspect(e, func(n ast.Node) bool {
+					if c, ok := n.(*ast.CallExpr); ok {
+						if _, ok := iife(c); ok {
+							has = true
+						}
+					}
+					return !has
+				})
+				return has
+			}
+			unparen := func(e ast.Expr) ast.Expr {
+				for {
+					p, ok := e.(*ast.ParenExpr)
+					if !ok {
+						return e
+					}
+					e = p.X
+				}
+			}
+			cond := unparen(is.Cond)
+			if be, ok := cond.(*ast.BinaryExpr); ok && be.Op == token.LAND && is.Else == nil && !hasLit(be.X) && hasLit(be.Y) {
+				edit = &srcEdit{off(is.Pos()), off(is.End()), "if " + text(be.X.Pos(), be.X.End()) + " {\nif " + text(be.Y.Pos(), be.Y.End()) + " " + text(is.Body.Pos(), is.Body.End()) + "\n}"}
+				return false
+			}
+			neg := ""
+			inner := cond
+			if u, ok := cond.(*ast.UnaryExpr); ok && u.Op == token.NOT {
+				neg, inner = "!", unparen(u.X)
+			}
+			if fl, ok := iife(inner); ok && nres(fl) == 1 {
+				tmp := label + "Cond"
+				edit = &srcEdit{off(is.Pos()), off(is.End()), "{\n" + tmp + " := " + text(inner.Pos(), inner.End()) + "\nif " + neg + tmp + " " + text(is.Body.Pos(), is.End()) + "\n}"}
+				return false
+			}
+		}
 		tryHoist(node)
 		if edit != nil {
 			return false
